@@ -436,7 +436,16 @@ func CheckC05(run *evid.Run) {
 					defer wwg.Done()
 					for {
 						for e, d := range want {
-							if now := hx.ContentDigest(e); now != d {
+							// (an entry that cannot even be read consistently while the merges run is being written to)
+							now := func() (dg string) {
+								defer func() {
+									if p := recover(); p != nil {
+										dg = fmt.Sprintf("<unreadable: %v>", p)
+									}
+								}()
+								return hx.ContentDigest(e)
+							}()
+							if now != d {
 								changed.Store(fmt.Sprintf("entry %s (key %d bytes, sig %d bytes)", hx.Short(e.GetHash().String()), len(e.GetKey()), len(e.GetSig())))
 								return
 							}
